@@ -140,7 +140,7 @@ def _solve_text(args):
         return name, r1, "z3-lin", time.time() - t0, ""
     if expect == "valid":
         for tag, sub in subsets:
-            r1, _ = _z3_check(sub, 5000, EM)
+            r1, _ = _z3_check(sub, 8000, EM)
             if r1 == "unsat":
                 return name, r1, f"z3-{tag}", time.time() - t0, ""
     r1, _ = _z3_check(text, first, EM)
@@ -151,7 +151,7 @@ def _solve_text(args):
         return name, r, "z3", time.time() - t0, reason
     if expect == "valid":
         for tag, sub in subsets:
-            r1, _ = _z3_check(sub, 5000, LIN)
+            r1, _ = _z3_check(sub, 8000, LIN)
             if r1 == "unsat":
                 return name, r1, f"z3-{tag}-lin", time.time() - t0, ""
     r1, _ = _z3_check(text, 3 * first, LIN)
@@ -226,7 +226,7 @@ def run_jobs(jobs, workers, hard_factor=3.0):
             p = ctx.Process(target=_job_main, args=(child, job), daemon=True)
             p.start()
             child.close()
-            hard = (6 * min(job[3], 6000) + job[3] + 10000 * (len(job[5]) if len(job) > 5 else 0)) / 1000.0 * 1.5 + (CVC5_TIMEOUT_S + 6 if job[4] else 0) + 5
+            hard = (6 * min(job[3], 6000) + job[3] + 16000 * (len(job[5]) if len(job) > 5 else 0)) / 1000.0 * 1.5 + (CVC5_TIMEOUT_S + 6 if job[4] else 0) + 5
             running[job[0]] = (p, parent, time.time(), hard)
         done = []
         for name, (p, conn, t0, hard) in running.items():
